@@ -1,5 +1,6 @@
 import Insim.Model.Vehicle
 import Insim.Gen.Vehicle
+import Insim.Lemmas.Reader
 /-
 C13 — vehicle identifiers map one-to-one onto their 4 wire bytes.
 Theorems about the hand model of `Vehicle`'s reader/writer instantiated with the tables
@@ -105,5 +106,15 @@ example : decode readRows [88, 82, 84, 0] = .ok (.builtin [88, 114, 116]) := by 
 example : decode readRows [0x3D, 0x5A, 0x4F, 0x00] = .ok (.mod 0x4F5A3D) := by decide
 example : decode readRows [65, 65, 65, 0] = .err .decode := by decide
 example : IsBytes [88, 82, 84, 0] := by decide
+
+/-! ### the four bytes reach the decoder through `read_exact` -/
+
+/-- **the decoder does not see how the source cuts its data**: read through `read_exact`, the identifier decodes to what its
+first four bytes decode to and the source is left right behind them; with fewer than four bytes left the read fails -/
+theorem segmented_read (pieces : List Bytes) :
+    (pieces.flatten.length < 4 ∧ Reader.decodeFrom 4 (decode readRows) pieces = (.err .decode, none)) ∨
+    (4 ≤ pieces.flatten.length ∧ ∃ rest, Reader.decodeFrom 4 (decode readRows) pieces = (decode readRows (pieces.flatten.take 4), some rest) ∧
+       rest.flatten = pieces.flatten.drop 4) :=
+  Reader.decodeFrom_spec 4 (decode readRows) pieces
 
 end Insim.Props.C13
